@@ -299,12 +299,17 @@ def r3(ctx):
     tl = [n for n in walk_function(run.node) if isinstance(n, ast.For) and isinstance(n.target, ast.Name) and "vcf_reader" in u(n.iter) and not u(n.iter).endswith(".samples") and st and any(x is st[0].stmt for x in ast.walk(n))]
     if len(tl) == 1:
         tv = tl[0].target.id
-        muts = []
-        for c in ctx.prog.calls_in(tl[0]):
-            if isinstance(c.func, ast.Attribute) and u(c.func.value) == tv:
-                m = ctx.prog.functions.get("whatshap.vcf.VariantTable.%s" % c.func.attr)
-                if m is not None and any(util.root_name(s_.target) == "self" for s_ in util.store_sites(m.node)):
-                    muts.append(c)
+        # VariantTable methods that store through self, directly or through another method of the table
+        vt = {q.rsplit(".", 1)[1]: f for q, f in ctx.prog.functions.items() if q.startswith("whatshap.vcf.VariantTable.") and q.count(".") == 3}
+        mutating = {n_ for n_, f in vt.items() if n_ != "__init__" and any(util.root_name(s_.target) == "self" for s_ in util.store_sites(f.node))}
+        grew = True
+        while grew:
+            grew = False
+            for n_, f in vt.items():
+                if n_ not in mutating and n_ != "__init__" and any(isinstance(c_.func, ast.Attribute) and u(c_.func.value) == "self" and c_.func.attr in mutating for c_ in ctx.prog.calls_in(f.node)):
+                    mutating.add(n_)
+                    grew = True
+        muts = [c for c in ctx.prog.calls_in(tl[0]) if isinstance(c.func, ast.Attribute) and u(c.func.value) == tv and c.func.attr in mutating]
         muts += [s_.stmt for s_ in util.store_sites(tl[0]) if util.root_name(s_.target) == tv]
         rebinds = [s_ for s_, v_ in util.assignments_to(tl[0], tv) if isinstance(s_, ast.stmt) and s_ is not tl[0]]
         bad = muts + rebinds
